@@ -23,7 +23,7 @@ fn exec_line(line: &str, out: &mut Out) -> Option<()> {
     match op {
         "tnew" | "tenc" => suites::token::exec(op, &args, out),
         "door" => suites::parse::exec(op, &args, out),
-        "ftok" | "acc" | "wtt" | "wlt" => suites::tokens::exec(op, &args, out),
+        "ftok" | "acc" | "wtt" | "wlt" | "fus" => suites::tokens::exec(op, &args, out),
         "get" | "rr" | "rf" | "rt" | "ri" | "rti" | "ru" | "rb" | "spat" => suites::slice::exec(op, &args, out),
         "pfx" => suites::prefix::exec(op, &args, out),
         "buf" => suites::buf::exec(op, &args, out),
